@@ -177,6 +177,7 @@ type c12OverlapIn struct {
 	Reqs   []c12OvReq `json:"reqs"`
 	Sched  [][]int    `json:"sched"` // [kind, ids...]: 0 enter, 1 leave, 2 burst
 	Stderr bool       `json:"stderr,omitempty"`
+	Traced bool       `json:"traced,omitempty"` // tracer.TracingHandler around the checks
 }
 
 type c12OvStep struct {
@@ -256,7 +257,7 @@ func c12Overlap(c *gen.Ctx, in c12OverlapIn) c12OverlapOut {
 		names = append(names, q.Name)
 	}
 	httpReqs := c12BuildAll(reqs)
-	steps, robs := rs.VerifC12Overlap(httpReqs, evs, in.Stderr)
+	steps, robs := rs.VerifC12Overlap(httpReqs, evs, in.Stderr, in.Traced)
 	batch := c12Batch(names...)
 	var out c12OverlapOut
 	out.Steps = []c12OvStep{}
@@ -545,7 +546,7 @@ func c12OverlapGen(c *gen.Ctx) {
 					if same == 1 {
 						n1 = "Overlap/a"
 					}
-					add(c12OverlapIn{Reqs: []c12OvReq{c12OvMake(r, k0, "Overlap/a"), c12OvMake(r, k1, n1)}, Sched: sched})
+					add(c12OverlapIn{Reqs: []c12OvReq{c12OvMake(r, k0, "Overlap/a"), c12OvMake(r, k1, n1)}, Sched: sched, Traced: (k0+k1+same)%2 == 1})
 					c.E.Count("kind:overlap-two-requests-exhaustive")
 				}
 			}
@@ -635,7 +636,7 @@ func c12OverlapGen(c *gen.Ctx) {
 		if r.Intn(10) == 0 { // events that do not apply
 			sched = append(sched, []int{1, r.Intn(n)}, []int{0, r.Intn(n)}, []int{1, n + 1})
 		}
-		add(c12OverlapIn{Reqs: reqs, Sched: sched, Stderr: stderr})
+		add(c12OverlapIn{Reqs: reqs, Sched: sched, Stderr: stderr, Traced: i%3 == 1})
 		if stderr {
 			c.E.Count("kind:overlap-random-stderr")
 		} else {
@@ -726,10 +727,11 @@ func c12StreamGen(c *gen.Ctx) {
 // shape of op overlap (events enter A, enter B, leave B, leave A) and is judged like it.
 
 type c12RealOverlapIn struct {
-	Srv   int        `json:"srv"`
-	Reqs  []c12OvReq `json:"reqs"`
-	ProcB string     `json:"procB"`
-	Sched [][]int    `json:"sched"`
+	Srv    int        `json:"srv"`
+	Reqs   []c12OvReq `json:"reqs"`
+	ProcB  string     `json:"procB"`
+	Sched  [][]int    `json:"sched"`
+	Traced bool       `json:"traced,omitempty"` // the server has a tracer
 }
 
 func init() {
@@ -756,7 +758,7 @@ func c12RealOverlap(c *gen.Ctx, in c12RealOverlapIn) c12OverlapOut {
 	if qa.A[6] == 1 {
 		clientCA = c12Certs.clientCert
 	}
-	srv, err := rs.VerifC12StartReal(int32(in.Srv), qa.A[5] == 1, c12Certs.serverCert, c12Certs.serverKey, clientCA)
+	srv, err := rs.VerifC12StartRealTraced(int32(in.Srv), qa.A[5] == 1, c12Certs.serverCert, c12Certs.serverKey, clientCA, in.Traced)
 	if err != nil {
 		return stuck(err.Error())
 	}
@@ -869,7 +871,7 @@ func c12RealOverlapGen(c *gen.Ctx) {
 				case 2: // the same test case twice
 					qb.Name = qa.Name
 				}
-				ins = append(ins, c12RealOverlapIn{Srv: t.srv, Reqs: []c12OvReq{qa, qb}, ProcB: p.proc, Sched: [][]int{{0, 0}, {0, 1}, {1, 1}, {1, 0}}})
+				ins = append(ins, c12RealOverlapIn{Srv: t.srv, Reqs: []c12OvReq{qa, qb}, ProcB: p.proc, Sched: [][]int{{0, 0}, {0, 1}, {1, 1}, {1, 0}}, Traced: (round+len(ins))%2 == 1})
 				c.E.Count("kind:real-overlap")
 			}
 		}
